@@ -409,7 +409,10 @@ class DFState:
             if set(i.on_values) & set(transition.on_values):
                 contained.add(i)
                 break
-        if contained and any(x.target != transition.target or x.is_fallthrough != transition.is_fallthrough or x.error_handling != transition.error_handling for x in contained):
+        # (a transition that differs only in its actions is not a duplicate either: e.g. the error transition of the statement
+        # after an optional carries the actions chained in front of that statement, the optional's own one does not)
+        if contained and any(x.target != transition.target or x.is_fallthrough != transition.is_fallthrough or x.error_handling != transition.error_handling
+                             or (allow_replace_if is not None and x.actions != transition.actions and allow_replace(x)) for x in contained):
             for contain in contained:
                 if allow_replace(contain):
                     for x in transition.on_values:
